@@ -38,8 +38,10 @@ lines.append("Each sub-agent saw only the text of one property and a scratch "
              "trigger to be an unusual-but-valid REPRESENTATION of ordinary "
              "data (memory layout, byte order, narrower types, hand-written "
              "metadata, file naming, symbolic links, URL spellings, file-"
-             "format variants). 120 changes in total, 2 of them rejected as "
-             "outside the input domain (marked); "
+             "format variants); round 7 (S7-*) required an exact boundary "
+             "value or a coincidence between two quantities that smooth "
+             "random ranges almost never produce. 140 changes in total, 2 of "
+             "them rejected as outside the input domain (marked); "
              "the 'caught by' column says when a check had to be "
              "strengthened first.\n")
 lines.append("| seeded change | breaks | what it needs to manifest | caught by"
